@@ -178,7 +178,7 @@ contract(P + "Task._insert_action", props=["C09", "C01"], shards=4, types={"node
                    "allocated(ref_field(ref_field(dget(kids(node), K), 'task_level'), '_level')))), 'val', pat=contains(kids(node), K))")],
          ghosts={"PAR": "WrittenAction", "RULE": "bool"}, ghost_defaults={"RULE": "complete_here(self, node)"},
          after={"Task._ensure_node_parents#0": [("PAR", "PAR")]},
-         loops={0: {"locals": {"completed": "bool"},
+         loops={0: {"locals": {"completed": "bool"}, "membership_fact": True,
                     "inv": [("still-complete-while-looping", "completed == True"),
                             ("every-action-child-seen-so-far-is-recorded-as-completed",
                              "forall(lambda K: implies(contains(kids(node), K) and contains(_done, dget(kids(node), K)) and isinst(dget(kids(node), K), 'WrittenAction', True), "
